@@ -327,7 +327,7 @@ func (d *Decls) zero(t types.Type) string {
 	case *types.Interface:
 		return "(mk-iface 0 0)"
 	case *types.Array:
-		return fmt.Sprintf("((as const (Array Int %s)) %s)", d.sortOf(u.Elem()), d.zero(u.Elem()))
+		return d.constArray("Int", d.sortOf(u.Elem()), d.zero(u.Elem()))
 	case *types.Struct:
 		d.sortOf(t)
 		if u.NumFields() == 0 {
@@ -347,6 +347,17 @@ func (d *Decls) zero(t types.Type) string {
 func (d *Decls) strUFDecls() {
 	d.sortOf(types.Typ[types.String])
 	d.add("str.cat", "(declare-fun str.cat (Str Str) Str)\n(declare-fun str.lt (Str Str) Bool)\n(declare-fun strlen (Str) Int)\n(assert (forall ((s Str)) (! (>= (strlen s) 0) :pattern ((strlen s)))))")
+}
+
+// constArray: an array with every cell equal to val. cvc5 accepts "as const" only for literal values, so when val
+// mentions declared constants (uninterpreted string literals) a named array with a defining axiom is used instead.
+func (d *Decls) constArray(idxSort, elemSort, val string) string {
+	if !strings.Contains(val, "str!") && !strings.Contains(val, "opaque") {
+		return fmt.Sprintf("((as const (Array %s %s)) %s)", idxSort, elemSort, val)
+	}
+	name := sym(fmt.Sprintf("zeroarr!%x", hashStr(idxSort+elemSort+val)))
+	d.add("zeroarr:"+name, fmt.Sprintf("(declare-const %s (Array %s %s))\n(assert (forall ((i %s)) (! (= (select %s i) %s) :pattern ((select %s i)))))", name, idxSort, elemSort, idxSort, name, val, name))
+	return name
 }
 
 func (d *Decls) strLit(s string) string {
